@@ -344,23 +344,42 @@ func runC14(c *Ctx) {
 		})
 		// body read = the second io.ReadFull; body allocation = slices.Grow with the decoded size
 		var bodySinks []ssa.Instruction
-		reads := CallSinks(readMsg, CalleeIs(p.PkgFunc("io:ReadFull")), false)
+		// (a header read moved into a new helper still counts as the first read)
+		reads := CallSinksX(readMsg, CalleeIs(p.PkgFunc("io:ReadFull")), false)
 		if len(reads) >= 2 {
 			bodySinks = append(bodySinks, reads[1:]...)
 		}
-		for _, cs := range CallsIn(readMsg) {
-			if o := CalleeObj(cs.Common()); o != nil && o.Name() == "Grow" {
-				var srcs []string
-				var leaves []ssa.Value
-				sizeSources(cs.Common().Args[1], map[ssa.Value]bool{}, &srcs, &leaves)
-				if len(srcs) > 0 {
-					bodySinks = append(bodySinks, cs)
+		wireSized := func(v ssa.Value) bool {
+			var srcs []string
+			var leaves []ssa.Value
+			sizeSources(v, map[ssa.Value]bool{}, &srcs, &leaves)
+			if len(srcs) > 0 {
+				return true
+			}
+			for {
+				if cv, ok := v.(*ssa.Convert); ok {
+					v = cv.X
+					continue
+				}
+				break
+			}
+			vals, _ := Origins(v) // through a header-parsing helper that returns the size
+			for _, o := range vals {
+				if o != v {
+					sizeSources(o, map[ssa.Value]bool{}, &srcs, &leaves)
 				}
 			}
-			if o := CalleeObj(cs.Common()); o != nil && o.Name() == "UnmarshalVT" {
+			return len(srcs) > 0
+		}
+		for _, cs := range CallsIn(readMsg) {
+			if o := CalleeObj(cs.Common()); o != nil && o.Name() == "Grow" && wireSized(cs.Common().Args[1]) {
 				bodySinks = append(bodySinks, cs)
 			}
 		}
+		bodySinks = append(bodySinks, CallSinksX(readMsg, func(cc *ssa.CallCommon) bool {
+			o := CalleeObj(cc)
+			return o != nil && o.Name() == "UnmarshalVT"
+		}, false)...)
 		c.RequireGate("C14.3-frame-discipline", readMsg, contains, bodySinks, "body allocation/read/decode")
 		c.RequireGate("C14.3-frame-discipline", readMsg, sizeOK, bodySinks, "body allocation/read/decode")
 	}
